@@ -8,7 +8,7 @@ From Coq Require Import ZArith List Bool.
 From TV Require Import Base.Prelude Spec.CbcCheck Toy.ToyMac Model.C01_RecordPipe Toy.C01_ToyCipher Spec.C01_Contracts
   Model.C02_RecordAccept Spec.C02_Ideal Proofs.C01_RoundTrip Proofs.C01_Delivery Proofs.C01_ToyOk
   Proofs.C02_Cbc Proofs.C02_Accept Proofs.C02_Integrity Proofs.C02_Reject Proofs.C02_Corollaries
-  Proofs.C02_Image Proofs.C02_Effects.
+  Proofs.C02_Image Proofs.C02_Effects Proofs.C01_Close Proofs.C02_Epochs.
 Import ListNotations.
 Open Scope Z_scope.
 
@@ -198,6 +198,31 @@ Theorem accept_effects : forall (CS : Type) (cr cw : Cfg) (Pr Pw : Prim CS) (e :
   e_rbuf e' = e_rbuf e ++ data /\ e_closed e' = e_closed e /\ e_resumable e' = e_resumable e /\
   e_sent e' = e_sent e /\ e_rd e' = r1.
 Proof. exact @accept_effects_l. Qed.
+
+(* ---- key epochs (TLS 1.3 KeyUpdate) and the defragmenter across read-key changes --------------------------- *)
+(* generation N of a direction's traffic secret is next^N(s0) (RFC 8446 7.2; the harness compares the secrets
+   and IVs of three consecutive KeyUpdates with an independent HKDF).  Under the ideal reading of HKDF
+   (next and the key/IV derivation injective, the chain does not return to s0) all epochs have different keys,
+   so cross_epoch_rejected_ideal applies to every pair of epochs. *)
+Theorem keyupdate_epochs_distinct_ideal : forall (S K : Type) (next : S -> S) (derive : S -> K) (s0 : S),
+  (forall a b, next a = next b -> a = b) ->
+  (forall a b, derive a = derive b -> a = b) ->
+  (forall n, (0 < n)%nat -> generation next s0 n <> s0) ->
+  forall i j, i <> j -> derive (generation next s0 i) <> derive (generation next s0 j).
+Proof. exact @keyupdate_epochs_distinct_l. Qed.
+
+(* every byte of every alert/handshake message yielded was carried by a record of the key epoch in which the
+   message is yielded: nothing received before a read-key change survives it ... *)
+Theorem no_plaintext_survives_key_change : forall (steps : list dstep) ep waiting out,
+  fold_left defrag_step steps (Some (O, [], [])) = Some (ep, waiting, out) ->
+  Forall (fun b => snd b = ep) waiting /\
+  Forall (fun m => Forall (fun b => snd b = fst m) (snd m)) out.
+Proof. exact no_plaintext_survives_l. Qed.
+
+(* ... because a key change with bytes waiting is refused *)
+Theorem key_change_needs_empty_defragmenter : forall ep x waiting out,
+  defrag_step (Some (ep, x :: waiting, out)) DKeyChange = None.
+Proof. exact key_change_needs_empty_l. Qed.
 
 (* ---- the hypotheses are satisfiable ------------------------------------------------------------------------ *)
 Example aead_tight_satisfiable : aead_tight (toy_prim_aead [4; 5] 16).
